@@ -163,8 +163,22 @@ def run(chk, only=None):
                 grp += ch_
                 if depth == 0:
                     break
-            inner = re.sub(r"[()*\s]|\b(const|volatile|restrict|_Atomic)\b", "", grp)
-            if not re.fullmatch(r"[A-Za-z_][A-Za-z0-9_]*", inner or ""):
+            # what is inside the outermost parentheses, with pointer stars, qualifiers and REDUNDANT parentheses peeled off: a lone identifier is the plain case
+            inner = grp
+            while True:
+                t_ = re.sub(r"^\s*(\*|const\b|volatile\b|restrict\b|_Atomic\b)\s*", "", inner.strip())
+                if t_.startswith("(") and t_.endswith(")"):
+                    d_, ok_ = 0, True
+                    for i_, ch2 in enumerate(t_):
+                        d_ += ch2 == "("; d_ -= ch2 == ")"
+                        if d_ == 0 and i_ < len(t_) - 1:
+                            ok_ = False; break
+                    if ok_:
+                        t_ = t_[1:-1]
+                if t_ == inner:
+                    break
+                inner = t_
+            if not re.fullmatch(r"[A-Za-z_][A-Za-z0-9_]*", inner.strip() or ""):
                 key = "typedef-name-guessed-as-declarator:parenthesised-declarator"
         if key in seen:
             continue
